@@ -363,14 +363,15 @@ func genE2E12(r *rand.Rand) e2eCase {
 	ts := genTriples(r, vK, wK, 2+r.Intn(8), class == "D12")
 	c.Triples = tripleStrings(ts)
 	st, from := newGraph(ctx, "?g", ts), "?g"
-	multi := r.Intn(3) == 0
+	shapeRoll := r.Intn(7)
+	multi := r.Intn(3) == 0 || (shapeRoll == 5 && r.Intn(2) == 0) // full scans (the push-down shape) more often over several graphs
 	if multi { // the data split over 2-3 graphs in FROM (with overlaps): the driver is asked once per graph
 		st, from, c.Graphs = splitGraphs(ctx, r, ts)
 		c.Kinds = append(c.Kinds, "FROM "+from)
 	}
 	var sel, where string
 	var outs []string
-	switch r.Intn(7) {
+	switch shapeRoll {
 	case 6:
 		// NAME COLLISION: an alias that is also the name of a pattern binding (ORDER BY ?o sorts by the subject)
 		c.Shape = "shadow"
@@ -396,7 +397,8 @@ func genE2E12(r *rand.Rand) e2eCase {
 	}
 	c.BaseQ = "SELECT " + sel + " FROM " + from + " WHERE " + where + ";"
 	q := "SELECT " + sel + " FROM " + from + " WHERE " + where
-	if r.Intn(8) != 0 {
+	noOrder := r.Intn(5) == 0 || (c.Shape == "full-scan" && r.Intn(2) == 0) // LIMIT without ORDER BY: any min(n, N) rows
+	if !noOrder {
 		nk := 1 + r.Intn(3)
 		for i := 0; i < nk; i++ {
 			c.Cfg = append(c.Cfg, jkey{B: outs[r.Intn(len(outs))], Desc: r.Intn(3) == 0})
@@ -414,7 +416,7 @@ func genE2E12(r *rand.Rand) e2eCase {
 		}
 		q += orderByText(c.Cfg, r)
 	}
-	if r.Intn(3) != 0 {
+	if r.Intn(3) != 0 || noOrder {
 		n := int64(r.Intn(len(ts) + 2))
 		c.Limit = &n
 		q += fmt.Sprintf(` LIMIT "%d"^^type:int64`, n)
